@@ -123,7 +123,7 @@ func vh_runTransfer(view *vh_memFS, dest string, kind, k int) (sendErr, recvErr 
 
 func vh_c04View() *vh_memFS {
 	mk := func(p string, class int, data []byte) *vh_memEntry {
-		e := &vh_memEntry{stat: &types.Stat{Path: p, Mode: vh_modeFor(class, 0755), Uid: 1, Gid: 1, ModTime: vh_mtimeChoices[0], Size: int64(len(data))}, data: data}
+		e := &vh_memEntry{stat: &types.Stat{Path: p, Mode: vh_modeFor(class, 0755), Uid: 1, Gid: 1, ModTime: vh_mtimes()[0], Size: int64(len(data))}, data: data}
 		return e
 	}
 	return &vh_memFS{walkErrAt: -1, wholeReads: true, entries: []*vh_memEntry{
